@@ -286,6 +286,16 @@ class Engine(ExprMixin, CallMixin, StmtMixin):
             from ..contracts import cc as _cc
             b, n = self.ev(e.args[0], p), self.ev(e.args[1], p)
             return T.scalar(T.Set(T.INT), _cc.COMPF(TH.supp_fn(T.TUP)(b.t), TH.members(b.t), self.coerce(n, T.INT).t, z3.BoolVal(True), z3.IntVal(0)))
+        if fn == "cpos" and len(e.args) == 4:          # cpos(rows, columns, i, j): coo_pos of the two coordinate lists (theory coo_pos_def)
+            r, c = self.ev(e.args[0], p), self.ev(e.args[1], p)
+            if r.ty == T.EMPTYLIST:
+                r = self.coerce(r, T.Seq(T.INT))
+            if c.ty == T.EMPTYLIST:
+                c = self.coerce(c, T.Seq(T.INT))
+            if not (isinstance(r.ty, T.Seq) and isinstance(c.ty, T.Seq)):
+                raise ContractError("cpos() of lists that are not positional")
+            i, j = (self.coerce(self.ev(x, p), T.INT).t for x in e.args[2:])
+            return T.sv_int(TH.coo_pos(r.at, c.at, r.len, i, j))
         if fn == "closed_under" and len(e.args) == 2:  # closed_under(B, S): the node set S is closed under sharing a hyperedge listed in B
             from ..contracts import cc as _cc
             b, st = self.ev(e.args[0], p), self.ev(e.args[1], p)
@@ -376,6 +386,8 @@ class Engine(ExprMixin, CallMixin, StmtMixin):
             return T.scalar(pt, pt.mk(a.t, b.t))
         if fn in ("fst", "snd"):
             a = self.ev(e.args[0], p)
+            if isinstance(a.ty, T.Opt):        # specification expressions are total: the payload (unspecified for None)
+                a = a.val
             return T.scalar(a.ty.a, a.ty.fst(a.t)) if fn == "fst" else T.scalar(a.ty.b, a.ty.snd(a.t))
         if fn == "helper":       # helper("name", args...): the uninterpreted function that stands for the nested pure helper `name`
             name = e.args[0].value
@@ -654,7 +666,9 @@ class Engine(ExprMixin, CallMixin, StmtMixin):
         if recv is not None:
             env["self"] = post_recv
         cx = Cx(old_env=pre_env, result=result)
-        for name, g in self.eval_clauses(c.ensures, env, p, cx).items():
+        # clauses that speak about the callee's locals are facts about its inside: a caller does not get them (fewer assumptions)
+        visible = {k: v for k, v in c.ensures.items() if not (isinstance(v, str) and "local(" in v)}
+        for name, g in self.eval_clauses(visible, env, p, cx).items():
             p.assume(g)
         return result if result is not None else T.sv_none()
 
@@ -785,6 +799,8 @@ class Engine(ExprMixin, CallMixin, StmtMixin):
             base = name.split(".")[0] if name not in c.tags else name
             tag = c.tags.get(name) or c.tags.get(base) or self.layout_tag(c, name)
             self.oblige("ensures", name, q, g, tag)
+            if "staged_ensures" in c.options:
+                q.assume(g)       # later postconditions of this exit may use the earlier ones (each has its own obligation)
         self.frame(c, q, "frame")
 
     def layout_tag(self, c, name):
